@@ -1133,6 +1133,27 @@ impl Iterator for Unfused {
     }
 }
 
+/// A source whose `size_hint` is honest but loose: the upper bound exceeds the real number of items by `over`
+/// (as `filter` / `take_while` / `skip_while` adapters report it), the lower bound is 0.
+pub struct LooseHint {
+    data: Vec<u8>,
+    pos: usize,
+    over: usize,
+}
+impl Iterator for LooseHint {
+    type Item = u8;
+    fn next(&mut self) -> Option<u8> {
+        let b = self.data.get(self.pos).copied();
+        if b.is_some() {
+            self.pos += 1;
+        }
+        b
+    }
+    fn size_hint(&self) -> (usize, Option<usize>) {
+        (0, Some(self.data.len() - self.pos + self.over))
+    }
+}
+
 pub struct EncStreamOut {
     pub bytes: Vec<u8>,
     /// items yielded by further polls after the encoder's first None
@@ -1141,7 +1162,8 @@ pub struct EncStreamOut {
 }
 
 /// iterator encoder, collected by hand; polled `extra` more times after its first None.
-/// mode 0: by-value slice iterator, 1: by-ref, 2: non-fused source
+/// mode 0: by-value slice iterator, 1: by-ref, 2: non-fused source, 3: source with a loose upper size hint
+/// (real length + 1..3, so that the hint and the real length differ mod 4)
 pub fn run_encode_streaming(p: &[u8], mode: u8, extra: usize) -> EncStreamOut {
     fn collect(mut it: impl Iterator<Item = u8>, bound: usize, extra: usize) -> EncStreamOut {
         let mut bytes = Vec::new();
@@ -1170,6 +1192,7 @@ pub fn run_encode_streaming(p: &[u8], mode: u8, extra: usize) -> EncStreamOut {
     match mode {
         0 => collect(encode_streaming(p.iter().copied()), bound, extra),
         1 => collect(encode_streaming(p.iter()), bound, extra),
+        3 => collect(encode_streaming(LooseHint { data: p.to_vec(), pos: 0, over: 1 + p.len() % 3 }), bound, extra),
         _ => collect(
             encode_streaming(Unfused {
                 data: p.to_vec(),
